@@ -47,6 +47,14 @@ def run(ctx, res):
     for seq in (b'\xef\xbb\xbf', b'\xff\xfe', b'\xfe\xff', b'\xc2\xa0', b'\xe2\x80\x8b', b'\xe2\x80\xa8', b'\x80\x81'):
         srcs += [seq + b'x=1\n', seq + b'=2\n', b'y=' + seq + b'\n', b'a=1\n' + seq + b'b=2\n', b's="' + seq + b'" --' + seq + b'\n',
                  b'z=' + seq + seq + b'+1\n', b'[[' + seq + b']]', seq]
+    # the same string value written with either delimiter, in one program and in consecutive programs (both orders): how a value is
+    # re-spelled depends on its own delimiter, never on a literal seen before
+    for v in (b'"x"', b"'y'", b'a"b\'c', b'"', b"'", b'""', b"it's", b'say "hi"'):
+        dq = b'"' + v.replace(b'\\', b'\\\\').replace(b'"', b'\\"') + b'"'
+        sq = b"'" + v.replace(b'\\', b'\\\\').replace(b"'", b"\\'") + b"'"
+        lb = b'[[' + v + b']]'
+        srcs += [b'a=' + sq + b' b=' + dq + b'\n', b'a=' + dq + b' b=' + sq + b'\n', b'a=' + sq + b'\n', b'a=' + dq + b'\n', b'a=' + sq + b'\n',
+                 b'a=' + lb + b' b=' + dq + b' c=' + sq + b'\n']
     spec_lines, model_lines, impl = [], [], []
     for s in srcs:
         try:
